@@ -149,6 +149,9 @@ def check_value(run, race=False):
 
 def check_C02(run):
     ev, d, scen = check_value(run)
+    # multi-field structs, field paths through nil pointers, update / default programs: their executions must not panic either
+    import fam_struct
+    fam_struct.pipeline(run)
     return run.finish("every generating (source, target, settings) of the bounded universe, executed on every TLC-enumerated input value (nil/empty/non-empty containers, "
                       "nil at each pointer position, zero and two boundary values per basic kind); distinct = distinct (type pair, settings, input)",
                       ev, d, replay_writer=replay_writer(scen))
